@@ -709,6 +709,37 @@ def stage_field_sweep(ctx: Ctx):
                                   {'src': two.src, 'node': cls.__name__, 'field': field, 'formatted_tree': got[0], 'pure_ast': got[1]})
 
 
+def stage_type_patterns(ctx: Ctx):
+    """deterministic: for every node of the field programs and each of its fields, the pattern that asks for the TYPE of what the pure AST holds there (a node class, str / int /
+    ... for primitives, a list of them for list fields) gives the same answer - a match - on the formatted tree and on the pure AST"""
+    import fst
+    import fst.match as fm
+    for src in FIELD_PROGS:
+        root = fst.FST(src, 'exec')
+        for f in root.walk(True):
+            cls = type(f.a)
+            Mcls = getattr(fm, 'M' + cls.__name__, None)
+            if Mcls is None or isinstance(f.a, (ast.expr_context, ast.mod)):
+                continue
+            for field in cls._fields:
+                v = getattr(f.a, field, None)
+                if v is None or (isinstance(v, list) and (not v or any(e is None for e in v))):
+                    continue
+                tp = [type(e) for e in v] if isinstance(v, list) else type(v)
+                got = []
+                for route in ('fst', 'ast'):
+                    try:
+                        pat = Mcls(**{field: tp})
+                        got.append(pat.match(f if route == 'fst' else f.copy_ast()) is not None)
+                    except Exception as e:
+                        got.append(f'!{type(e).__name__}: {e}'[:120])
+                ctx.tick(('type-pattern', src, root.child_path(f, True), field), 'field:type-pattern')
+                if got != [True, True]:
+                    kind = 'identifier-list' if isinstance(v, list) and isinstance(v[0], str) else 'identifier' if isinstance(v, str) else 'other'
+                    ctx.violation(f'fst-vs-ast|type-pattern|{kind}|{cls.__name__}.{field}', 'a pattern asking for the type of what a field holds does not match the formatted tree and the pure AST alike',
+                                  {'src': f.src, 'node': cls.__name__, 'field': field, 'pattern_types': repr(tp)[:120], 'formatted_tree': got[0], 'pure_ast': got[1]})
+
+
 def run(ctx: Ctx):
     ctx.rule = ('(1) pattern sequences (<=2 items exhaustively sampled, 3 items random; items over {a, b, ., Q(a), Q(.), Q([a;b])} x {*, +, ?, {1,2}} x greedy/lazy) '
                 'x element sequences over {a,b,c} up to length 4 (quick) / 5 (thorough): real matcher vs re.fullmatch (accept + repetition counts) and vs the Coq '
@@ -724,6 +755,7 @@ def run(ctx: Ctx):
     run_guarded(ctx, stage_nested)
     run_guarded(ctx, stage_history)
     run_guarded(ctx, stage_field_sweep)
+    run_guarded(ctx, stage_type_patterns)
     progs = corpus(ctx.rng, gen=ctx.scale(6, 60))
     run_guarded(ctx, stage_search, progs)
     run_guarded(ctx, stage_search_ctx, progs)
